@@ -213,6 +213,8 @@ pub fn gen_node(r: &mut Rng, tier: &str, rooms: u8, nondyadic: bool, name: &'sta
                 if i % 12 == 5 { gen::gen_f32_corner(r) } else { gen::gen_f32_shrink_does_not_fit(r) }
             } else if rooms >= 1 && i % 20 == 17 {
                 gen::gen_f32_tiny_fraction(r)
+            } else if rooms >= 1 && i % 20 == 11 {
+                gen::gen_f32_fma_sensitive(r)
             } else if rooms == 2 && i % 20 == 7 {
                 gen::gen_many_courses_rooms(r)
             } else if rooms == 2 && i % 20 == 13 {
@@ -443,6 +445,9 @@ pub fn gen_solve(r: &mut Rng, tier: &str, rooms: u8, name: &'static str) -> Vec<
             }
             if rooms >= 1 && i % 20 == 15 {
                 inst = gen::gen_f32_tiny_fraction(r);
+            }
+            if rooms >= 1 && i % 20 == 11 {
+                inst = gen::gen_f32_fma_sensitive(r);
             }
             if rooms == 2 && i % 20 == 5 {
                 inst = gen::gen_room_cancel_twice(r);
@@ -910,7 +915,16 @@ pub fn gen_rooms(r: &mut Rng, tier: &str) -> Vec<Case> {
                 .map(|_| json!({"factor_bits": r.pick(&dy).to_bits(), "offset_bits": r.pick(&[0.0f32, 0.0, 1.0, 2.5]).to_bits(), "fixed": r.chance(1, 5)}))
                 .collect();
             // people per course (incl. instructors)
-            let counts: Vec<usize> = (0..nc).map(|_| r.pick(&[0usize, 0, 1, 2, 3, 3, 4, 5, 8])).collect();
+            let mut counts: Vec<usize> = (0..nc).map(|_| r.pick(&[0usize, 0, 1, 2, 3, 3, 4, 5, 8])).collect();
+            let mut courses = courses;
+            if i % 5 == 3 {
+                // a course whose effective size depends on the ORDER OF ROUNDING (product, then sum)
+                let t = gen::fma_sensitive_triples();
+                let (f, o, n, _) = t[r.usize(t.len())];
+                let k = r.usize(nc);
+                courses[k] = json!({"factor_bits": f.to_bits(), "offset_bits": o.to_bits(), "fixed": false});
+                counts[k] = n;
+            }
             let kinds = i % 3 == 2;
             Case { stream: "rooms", data: json!({"courses": courses, "counts": counts, "kinds": kinds,
                 "extra": (0..r.usize(4)).map(|_| r.pick(&[0usize, 1, 2, 3, 5, 8, 10, 20])).collect::<Vec<_>>(),
@@ -951,6 +965,14 @@ pub fn run_rooms(data: &Value) -> Vec<Line> {
     let real: Vec<cdecao::Course> = courses.iter().map(verif::make_course).collect();
     let sized = cdecao::caobab::room_effective_course_sizes(&assignment, &real);
     let sizes: Vec<usize> = sized.iter().map(|(_, s)| *s).collect();
+    let mut lines = vec![];
+    // the documented rule, computed here independently (two roundings: product, then sum; rounded up;
+    // empty non-fixed courses need no room)
+    let indep: Vec<usize> = courses.iter().zip(counts.iter()).map(|(c, n)| {
+        if *n == 0 && !c.fixed_course { 0 } else { (c.room_offset + c.room_factor * *n as f32).ceil() as usize }
+    }).collect();
+    lines.push(Line::direct(&["C18", "C06"], indep == sizes,
+        format!("effective course sizes {:?}, by the documented rule {:?} (people per course {:?})", sizes, indep, counts)));
     // a room-feasible room list: one room per positive size (+slack), plus extra rooms; optionally
     // drop rooms of empty courses (fewer rooms than courses)
     let slack: Vec<usize> = data["slack"].as_array().unwrap().iter().map(|x| x.as_u64().unwrap() as usize).collect();
@@ -975,7 +997,6 @@ pub fn run_rooms(data: &Value) -> Vec<Line> {
     // NOTE: the real code sorts (&Course, usize) pairs; the key and the input order are the same, and
     // the sort is deterministic in the sequence of comparison outcomes, hence the same permutation.
     let order: Vec<usize> = order_src.iter().map(|(c, _)| *c).collect();
-    let mut lines = vec![];
     let feat = vec![format!("courses={}", nc), format!("rooms={}", rooms.len().min(10)), format!("ties={}", { let mut s = sizes.clone(); s.sort(); s.dedup(); sizes.len() - s.len() }.min(4))];
     if data["kinds"].as_bool().unwrap() {
         // rooms file: kinds with capacity = room size; duplicates merged into quantity; optionally a
